@@ -104,6 +104,9 @@ JudgeC09(e, cfg, T) ==
        IF d # "" /\ PresencePath(d) THEN "presence@" \o d
        ELSE IF ~NoZeroFrames(cfg, T, e.v, e.out.bytes) THEN "zero-plain-field-encoded"
        ELSE IF e.out.desc.have /\ DescDiff(DescOf(T, FALSE, 12), e.out.desc.d, TRUE, 12) = "explicit-presence" THEN "descriptor-flag"
+       \* presence also survives the other calling convention (the value handed to Marshal by value)
+       ELSE IF "byval" \in DOMAIN e.out /\ e.out.byval.have /\ ~e.out.byval.panic /\ e.out.byval.merr = "" /\ e.out.byval.uerr = ""
+               /\ PresencePath(Diff(T, e.out.byval.back, Norm(cfg, T, e.v, TRUE))) THEN "byvalue:presence@" \o Diff(T, e.out.byval.back, Norm(cfg, T, e.v, TRUE))
        ELSE "ok"
 
 \* ---- C14: the descriptor mirrors the type ----
@@ -162,8 +165,11 @@ ProtoField(cfg, F0, frame, fuel) == LET F == StripPtr(F0) IN
                        wrong == {j \in 1..Len(res) : res[j] # "ok"} IN
                    IF wrong = {} THEN "ok" ELSE res[CHOOSE j \in wrong : TRUE]
     [] OTHER -> "ok"
+HasProtoTag(t) == t.k \in {"slice", "map"} /\ t.proto
 JudgeC12(e, cfg, T) ==
   IF Crashed(e) \/ e.out.panic \/ e.out.merr # "" THEN "ok"
+  \* the proto tag is a switch of its own: a field carrying it is written in the repeated form whatever the instance did before
+  ELSE IF ~cfg.protoArrays /\ AnySub(T, HasProtoTag, 8) /\ ~EncMatches(cfg, T, e.v, e.out.bytes) THEN "proto-tagged-field-bytes"
   ELSE IF ~(cfg.protoArrays /\ Resolve(T).k = "struct") THEN "ok"
   ELSE LET crossOK == IF ~e.out.cross.have THEN "ok"
                       ELSE IF e.out.cross.panic THEN "default-mode-decode-panic"
